@@ -401,6 +401,107 @@ func genShape(repo string) (*leanFile, error) {
 	sort.Strings(setters)
 	lf.pf("/-- callers of `SetLastPkgRx` inside package tds -/\n")
 	lf.pf("def setLastPkgRxCallers : List String := %s\n", leanStrs(setters))
+
+	// how a packet reaches the transport: the calls in Packet.WriteTo that hand something to its writer
+	// (a method of the writer, or the writer passed on), and the uses of the connection's transport in
+	// sendPacket — one each: a packet is one Write, which the transport does not tear
+	writerCalls := 0
+	for _, f := range p.files {
+		for _, d := range f.Decls {
+			fd, ok := d.(*ast.FuncDecl)
+			if !ok || fd.Body == nil || fd.Name.Name != "WriteTo" || fd.Recv == nil || len(fd.Recv.List) != 1 {
+				continue
+			}
+			if strings.TrimPrefix(exprStr(fd.Recv.List[0].Type), "*") != "Packet" {
+				continue
+			}
+			w := paramName(fd, 0)
+			ast.Inspect(fd.Body, func(n ast.Node) bool {
+				c, ok := n.(*ast.CallExpr)
+				if !ok {
+					return true
+				}
+				uses := false
+				if se, ok := c.Fun.(*ast.SelectorExpr); ok && exprStr(se.X) == w {
+					uses = true
+				}
+				for _, a := range c.Args {
+					if exprStr(a) == w {
+						uses = true
+					}
+				}
+				if uses {
+					writerCalls++
+				}
+				return true
+			})
+		}
+	}
+	transportUses := 0
+	if sp := p.funcDecl("Channel", "sendPacket"); sp != nil {
+		ast.Inspect(sp.Body, func(n ast.Node) bool {
+			if se, ok := n.(*ast.SelectorExpr); ok && exprStr(se) == "tdsChan.tdsConn.conn" {
+				transportUses++
+			}
+			return true
+		})
+	}
+	lf.pf("/-- calls in `Packet.WriteTo` that hand bytes to its writer -/\n")
+	lf.pf("def packetWriteCalls : Nat := %d\n", writerCalls)
+	lf.pf("/-- uses of the connection's transport in `Channel.sendPacket` -/\n")
+	lf.pf("def sendPacketTransportWrites : Nat := %d\n", transportUses)
+
+	// Conn.Close: how the channels to close are found. The model closes every channel of the map: the
+	// code must collect them by ranging over the map itself (ids may have gaps: logical channels come
+	// and go), close each collected channel, cancel the connection context, close the transport.
+	cc := p.funcDecl("Conn", "Close")
+	byRange, closesEach, cancels, closesTransport, otherMapUse := false, false, false, false, false
+	collected := ""
+	if cc != nil {
+		ast.Inspect(cc.Body, func(n ast.Node) bool {
+			switch x := n.(type) {
+			case *ast.RangeStmt:
+				if exprStr(x.X) == "tds.tdsChannels" {
+					// for _, ch := range tds.tdsChannels { slice = append(slice, ch) }
+					if v, ok := x.Value.(*ast.Ident); ok && len(x.Body.List) == 1 {
+						if as, ok := x.Body.List[0].(*ast.AssignStmt); ok && len(as.Rhs) == 1 {
+							if c, ok := as.Rhs[0].(*ast.CallExpr); ok && exprStr(c.Fun) == "append" && len(c.Args) == 2 && exprStr(c.Args[1]) == v.Name && exprStr(c.Args[0]) == exprStr(as.Lhs[0]) {
+								byRange = true
+								collected = exprStr(as.Lhs[0])
+							}
+						}
+					}
+					return false
+				}
+				if collected != "" && exprStr(x.X) == collected {
+					if v, ok := x.Value.(*ast.Ident); ok {
+						ast.Inspect(x.Body, func(m ast.Node) bool {
+							if c, ok := m.(*ast.CallExpr); ok && exprStr(c.Fun) == v.Name+".Close" {
+								closesEach = true
+							}
+							return true
+						})
+					}
+				}
+			case *ast.CallExpr:
+				switch exprStr(x.Fun) {
+				case "tds.ctxCancel":
+					cancels = true
+				case "tds.conn.Close":
+					closesTransport = true
+				}
+			case *ast.SelectorExpr:
+				if exprStr(x) == "tds.tdsChannels" {
+					otherMapUse = true // any use of the map outside the collecting range statement
+				}
+			}
+			return true
+		})
+	}
+	lf.pf("/-- `Conn.Close` collects the channels by ranging over the id → channel map (and uses the map in no other way), closes each of them, cancels the context and closes the transport -/\n")
+	lf.pf("def connCloseCollectsAll : Bool := %v\n", byRange && !otherMapUse)
+	lf.pf("def connCloseClosesEach : Bool := %v\n", closesEach)
+	lf.pf("def connCloseCancelsAndClosesTransport : Bool := %v\n", cancels && closesTransport)
 	lf.pf("\nend Dblib.Gen.Shape\n")
 	return lf, nil
 }
